@@ -72,7 +72,7 @@ LOOKALIKE = ["1", "true", "null", "1e3", "0123", "[1]", "{a: 1}", " padded ", "a
              "a,b", "null ", "0", "-0", "+1", "1.0", "no", "on", "None", "plain", "two words", "a.b", "a__b", "é", '"dq"', "a\\b", "a\nb", "\t",
              "${x}", "-5", "0o17", ".inf", ".nan", "<<", "=", "? a", "- a", "|", ">", "a #b", "{\"a\": 1}", "[1, 2]"]
 LIT_MEMBERS = ["a", "b", "1", "true", "null", " x ", "[1]"]
-NAMES = ["a", "b", "c", "x", "y", "lr", "n_1", "opt", "items", "keys", "Ab", "v2", "values", "get"]
+NAMES = ["a", "b", "c", "x", "y", "lr", "n_1", "opt", "items", "keys", "Ab", "v2", "w", "name"]
 GROUP_PATHS = ["g", "h", "g.s", "model"]
 HINTS = ["int", "int", "bool", "str", "str", "optint", "listint", "dictint", "lit", "enum", "posint", "liststr", "any", "litint", "tupint", "tupvar"]
 RAW_HINTS = {"str", "lit", "enum"}           # option / variable text is the value
@@ -216,6 +216,30 @@ def gen_case(rng):
             settings.append([a["key"] + "." + rng.choice(["a", "k_2"]), rng.choice([1, 5, -2])])
             kind = "dict-item"
     return {"spec": spec, "settings": settings, "kind": kind}
+
+
+VALUE_POOL = {
+    "int": INT_POOL, "posint": [1, 2, 5, 10**12, 77], "bool": [True, False], "str": LOOKALIKE, "optint": [None] + INT_POOL[:5],
+    "listint": [[], [1], [-1, 2, 30], [10**20]], "liststr": [[], [""], ["1", "true", "null"], [" padded ", "a: b", "#x", "[1]"]],
+    "dictint": [{}, {"a": 1}, {"a": 1, "b c": -2}, {"1": 1, "true": 2, "null": 3}], "lit": LIT_MEMBERS, "enum": ["red", "blue", "green"],
+    "litint": [1, 2], "any": [None, True, False, 0, -3, 12, [1, 2], [], [True, None], {"a": 1}, {}],
+    "tupint": [[0, 1], [-5, 10**20]], "tupvar": [[], [1], [3, 2, 1]],
+}
+
+
+def exhaustive_single():
+    """every hint x every pool value (valid and wrong) x key depth 1-3, single-argument settings (thorough tier)"""
+    out = []
+    for h in sorted(VALUE_POOL):
+        for key in ("k", "g.k", "g.s.k"):
+            for dflt in DEFAULTS[h][:1]:
+                spec = {"prefix": "APP", "prog": "c05prog", "group": "g" if key != "k" else None,
+                        "args": [{"key": key, "hint": h, "default": dflt}, {"key": "other", "hint": "int", "default": 0}]}
+                for v in VALUE_POOL[h]:
+                    out.append({"spec": spec, "settings": [[key, v]], "kind": "valid"})
+                for v in WRONG.get(h, []):
+                    out.append({"spec": spec, "settings": [[key, v]], "kind": "wrong"})
+    return out
 
 
 # ---------------------------------------------------------------- the real side
@@ -613,6 +637,7 @@ def judge(ctx: Ctx, case, origin):
         small = shrink_case(case, still)
     except Exception:  # noqa: BLE001
         small = case
+    small = {k: v for k, v in small.items() if not k.startswith("_")}
     o2 = run_channels(small)
     ctx.violation("the same settings do not give the same configuration through every channel: %s" % (deviation(small, o2) or dev),
                   {"kind": "oracle", "origin": origin, "case": small,
@@ -1031,15 +1056,19 @@ def run(ctx: Ctx):
         for one in c.get("cases", [c]):
             cases.append((one, "corpus"))
     n_corpus = len(cases)
-    n_random = ctx.budget(330, 6000) * (3 if ctx.search_boost > 1 else 1)
+    n_random = ctx.budget(330, 4000) * (2 if ctx.search_boost > 1 and not ctx.thorough else 1)
     for _ in range(n_random):
         cases.append((gen_case(ctx.rng), "generated"))
+    if ctx.thorough:
+        ex = exhaustive_single()
+        cases.extend((c, "exhaustive") for c in ex)
+        ctx.extra["exhaustive_single_argument_cases"] = len(ex)
 
     # --- correspondence of the addressing and text layers (before the oracle: a broken tie boosts the search)
     correspond_envvar(ctx, ctx.rng, ctx.budget(300, 3000))
     correspond_text(ctx, ctx.rng, ctx.budget(300, 3000))
-    if ctx.search_boost > 1:
-        for _ in range(n_random * 2):
+    if ctx.search_boost > 1:    # a tie is broken: search harder for a concrete failing input
+        for _ in range(ctx.budget(2 * n_random, n_random // 2)):
             cases.append((gen_case(ctx.rng), "generated (boosted)"))
 
     # --- the property on the real code
@@ -1077,7 +1106,24 @@ def run(ctx: Ctx):
         else:
             ctx.stale_findings.append(f["id"])
     ctx.extra["cases"] = len(cases)
+    ctx.extra["outside_quantifier_row5d_any_0123"] = probe_row5d()
     ctx.extra["channels"] = CHANNELS
+
+
+def probe_row5d():
+    """DESIGN section 7 row 5d, first half (a string at an Any position: outside the quantifier) — recorded, never an alarm"""
+    from typing import Any
+
+    from jsonargparse import ArgumentParser
+
+    def mk():
+        p = ArgumentParser(exit_on_error=False)
+        p.add_argument("--v", type=Any, default=None)
+        return p
+    try:
+        return {"argv --v=0123": repr(mk().parse_args(["--v=0123"]).v), "yaml file v: 0123": repr(mk().parse_string("v: 0123").v)}
+    except Exception as ex:  # noqa: BLE001
+        return {"error": repr(ex)}
 
 
 def replay(ctx: Ctx, body):
